@@ -1,6 +1,7 @@
 """C12 - GF(2^8) scalar arithmetic and multiplication tables are a correct field.
 Decided: all constant tables (exhaustive) and the table expansion gf_vect_mul_init for
 all c at once (GF(2)-linear abstract interpretation), both preprocessor branches."""
+import re
 import struct, os
 from common import Report, AnalysisBroken, run, REPO
 import cbuild, srcset, gf2, gf2lin
@@ -124,6 +125,55 @@ def _gfinit(rep, branch):
     R.check(not extra_bytes, 'erasure_code/ec_base.c:gf_vect_mul_init', 'stores outside tbl[0..31]: offsets %s' % extra_bytes[:8])
 
 
+def _table_writers(rep):
+    """W-TBL-EVERY: the coefficient-table builders write one table per coefficient, whatever the coefficient is (0 included: a
+    skipped slot keeps what the caller's buffer held before)."""
+    import llir, irrules
+    R = rep.rule('W-TBL-EVERY', 'ec_init_tables_base / ec_init_tables_gfni: in the innermost coefficient loop the table write (gf_vect_mul_init call / 8-byte store through the g_tbls cursor) '
+                 'is executed on every iteration - its block dominates every latch of the loop - and the cursor advances by exactly one table per iteration', floor=2, unit='builders')
+    mod = llir.library('default')
+    for fn, stride in (('ec_init_tables_base', 32), ('ec_init_tables_gfni', 8)):
+        f = mod.funcs.get(fn)
+        if f is None:
+            raise AnalysisBroken(fn + ' not found')
+        R.instance()
+        P = irrules.prov(mod, f)
+        writers = []
+        for i in f.all_insns():
+            if i.op == 'store' and any(a[0] == 'param' and a[1] == 3 for a in P.atoms(i.ops[1])):
+                writers.append(i)
+            if i.op == 'call' and re.sub(r'\.\d+$', '', i.callee) == 'gf_vect_mul_init' and any(a[0] == 'param' and a[1] == 3 for a in P.atoms(i.args[1][1])):
+                writers.append(i)
+        if not writers:
+            raise AnalysisBroken('%s: no write through g_tbls found' % fn)
+        loops = irrules.natural_loops(f)
+        for w in writers:
+            inl = [(h, body) for h, body in loops.items() if w.block in body]
+            if not inl:
+                raise AnalysisBroken('%s: table write is not inside a loop' % fn)
+            h, body = min(inl, key=lambda hb: len(hb[1]))
+            latches = [p_ for p_ in f.blocks[h].preds if p_ in body]
+            R.check(all(f.dominates(w.block, l) for l in latches), mod.where(f, w), '%s: the table write does not execute on every iteration of the coefficient loop (it does not dominate the loop latch %s): '
+                    'for the skipped coefficients the slot keeps the previous contents of g_tbls' % (fn, latches), key='W-TBL-EVERY|%s|dom' % fn, sample='%s: table write dominates the latch' % fn)
+        # the cursor: a phi at the innermost header over param 3, advanced by `stride` bytes on the latch edge
+        w = writers[0]
+        h, body = min([(h, b) for h, b in loops.items() if w.block in b], key=lambda hb: len(hb[1]))
+        adv = None
+        for i in f.blocks[h].insns:
+            if i.op != 'phi':
+                break
+            if not any(a[0] == 'param' and a[1] == 3 for a in P.atoms(i.dst)):
+                continue
+            for v, pb in i.extra['incoming']:
+                if pb in body:
+                    d = f.defs.get(v)
+                    if d is not None and d.op == 'getelementptr' and d.ops[0] == i.dst:
+                        adv = mod.types.gep_offset(d.extra['basety'], d.extra['idx'])
+                        adv = adv[0] if isinstance(adv, tuple) else adv
+        R.check(adv == stride, mod.where(f, w), '%s: the table cursor advances by %s bytes per coefficient, the table format needs %d' % (fn, adv, stride), key='W-TBL-EVERY|%s|stride' % fn,
+                sample='%s: cursor += %d per coefficient' % (fn, stride))
+
+
 def main(tier):
     rep = Report('C12', tier, level='proof')
     rep.undecided = UNDECIDED
@@ -137,6 +187,7 @@ def main(tier):
                         configurations=['default', 'gflarge'], functions=['gf_vect_mul_init (64-bit branch)', 'gf_vect_mul_init (bytewise branch)', 'gf_mul', 'gf_inv'])
     _tables(rep, 'default')
     _tables(rep, 'gflarge')
+    _table_writers(rep)
     _gfinit(rep, 'word64')
     _gfinit(rep, 'bytewise')
     return rep.finish()
